@@ -199,13 +199,18 @@ def run(ctx):
         # fixed shapes: links to the top of the tree from one and two levels down, every way of storing the tree
         fixed = [("pkg", "dir", 0o755), ("pkg/f.txt", "file", (b"payload", 0o644)), ("pkg/top", "link", ".."), ("pkg/lib", "dir", 0o750),
                  ("pkg/lib/top2", "link", "../.."), ("pkg/lib/up", "link", ".."), ("pkg/lib/g.bin", "file", (b"", 0o600)), ("empty", "dir", 0o700)]
+        # names that extend a sibling's name, empty and non-empty, files and directories
+        fixed2 = [("pkg", "dir", 0o755), ("pkg/lib", "dir", 0o750), ("pkg/lib64", "dir", 0o755), ("pkg/lib64/so.bin", "file", (b"elf", 0o644)),
+                  ("pkg/lib.d", "dir", 0o700), ("v1", "dir", 0o711), ("v10", "dir", 0o755), ("v1.txt", "file", (b"one", 0o600)),
+                  ("test", "dir", 0o555), ("tests", "dir", 0o755), ("tests/t.py", "file", (b"", 0o644)), ("testsuite", "file", (b"x" * 40, 0o640))]
         for entry in ("api", "api-dot", "shutil", "shutil-root"):
             for pw in (None, "pw"):
                 if pw and entry.startswith("shutil"):
                     continue
-                opts = {"seed": 7, "password": pw, "dereference": False, "arcname": None, "dest": "given", "entry": entry}
-                jobs.append((fixed, opts, tmp))
-                meta.append((fixed, opts))
+                for shape in (fixed, fixed2):
+                    opts = {"seed": 7, "password": pw, "dereference": False, "arcname": None, "dest": "given", "entry": entry}
+                    jobs.append((shape, opts, tmp))
+                    meta.append((shape, opts))
         res = sandbox.pmap(_roundtrip, jobs, timeout=180)
         for (spec, opts), (st_, val) in zip(meta, res):
             desc = [(r, k, (len(p[0]), oct(p[1])) if k == "file" else (oct(p) if k == "dir" else p)) for r, k, p in spec]
